@@ -20,7 +20,7 @@ CHECKS = {
     "C13": {
         "level": "exploration",
         "technique": "runtime monitoring: lock-step shadow-model monitor over bounded-exhaustive and random operation sequences + porcupine linearizability check of recorded concurrent histories under the Go race detector",
-        "level_text": "Every operation sequence up to depth 5 (thorough 6) over a 24-operation alphabet and thousands of random length-80 sequences are executed on the real state.State request queue; after every step the monitor compares the queue with a shadow of the observable history (outstanding set, order, body presence, byte counter, window). Concurrent histories of the four real callers are recorded at the API boundary and checked for linearizability; the race detector watches the same runs. Exploration is the right level: the state space (hash trees x sizes x sequences) is unbounded, the sampled part is dense around the window/byte limits and fork clears.",
+        "level_text": "Every operation sequence up to depth 5 (thorough 6) over a 24-operation alphabet and thousands of random length-80 sequences are executed on the real state.State request queue; after every step the monitor compares the queue with a shadow of the observable history (outstanding set, order, body presence, byte counter, window). Concurrent histories of the four real callers are recorded at the API boundary and checked for linearizability; the race detector watches the same runs. Exploration is the right level: the state space (hash trees x sizes x sequences) is unbounded, the sampled part is dense around the window/byte limits and fork clears. A wire-level monitor in the DS engine judges every getdata(block) as it is emitted: no repeat while the earlier request is outstanding, not for a held block, parent first; a fork among requested or queued blocks must be followed.",
         "level_note": "Trusted: fake wire.Block objects (size as claimed), overlay accessor reading unexported queue fields under State.lock, porcupine. The byte limit is only probed clearly below/above 100 MB; request-now vs queued is not compared.",
         "runs": [
             {"pkg": "internal/state", "test": "TestVerif_C13"},
@@ -32,7 +32,7 @@ CHECKS = {
     "C09": {
         "level": "exploration",
         "technique": "runtime monitoring: reference-model monitor (Go slice) in lock-step with the real block repository over generated operation lists, every query probed after every operation",
-        "level_text": "Generated operation lists over {add k, revert t, save, save+reload} with heights concentrated at the 1000-header file boundaries run against the real BlockRepository on a recording in-memory store (both delete-missing behaviours); after every operation ~80 query answers are compared with a Go slice, panics are caught, and a failing revert must leave every answer unchanged. The node's header-range query is checked the same way. Exploration: the sequence space is unbounded; sampling is dense where the code has special cases (file roll-over, unsaved newest file, cross-file revert).",
+        "level_text": "Generated operation lists over {add k, revert t, save, save+reload} with heights concentrated at the 1000-header file boundaries run against the real BlockRepository on a recording in-memory store (both delete-missing behaviours); after every operation ~80 query answers are compared with a Go slice, panics are caught, and a failing revert must leave every answer unchanged. The node's header-range query is checked the same way. Exploration: the sequence space is unbounded; sampling is dense where the code has special cases (file roll-over, unsaved newest file, cross-file revert). Ops include Load on the repository in use (as Node.load does for AddPeer/Scan/Run); a concurrent monitor (race detector) has readers ask for the tip while another goroutine saves and reverts across a file boundary.",
         "level_note": "Trusted: verifkit.Store as the storage back end, the list model. Hash(-1)/Time(-1) may answer error, empty or the tip (only Header documents -1).",
         "runs": [
             {"pkg": "internal/storage", "test": "TestVerif_C09"},
@@ -55,7 +55,7 @@ CHECKS = {
     "C14": {
         "level": "exploration",
         "technique": "runtime monitoring: online trace checker over emitted getdata(tx) events under a virtual clock (aged request times) + porcupine linearizability check per txid of concurrent AddRequest histories under the race detector",
-        "level_text": "Thousands of generated interleavings of inventory announcements from one trusted and three untrusted connections, body arrivals, silent peers, confirmations and periodic tracker checks are run through the real inv handlers, MemPool.AddRequest and TxTracker.Check; every getdata(tx) the code emits is judged against a virtual clock (no second request inside the window, none after the body, a waiting announcer asks at its next check once the window passed, nothing after confirmation). Four goroutines announcing overlapping sets in one epoch give concurrent histories checked with porcupine and the race detector. Exploration: interleavings are unbounded; the generator is dense around the window boundary.",
+        "level_text": "Thousands of generated interleavings of inventory announcements from one trusted and three untrusted connections, body arrivals, silent peers, confirmations and periodic tracker checks are run through the real inv handlers, MemPool.AddRequest and TxTracker.Check; every getdata(tx) the code emits is judged against a virtual clock (no second request inside the window, none after the body, a waiting announcer asks at its next check once the window passed, nothing after confirmation). Four goroutines announcing overlapping sets in one epoch give concurrent histories checked with porcupine and the race detector. Exploration: interleavings are unbounded; the generator is dense around the window boundary. Further: arrivals on a second goroutine while a block is processed, and a family where a transaction with a stored state (its block was orphaned) is announced again after its double spend was seen. A node-level run (real UntrustedNode trackers registered with the node) checks that announcements of transactions confirmed in a block are forgotten, also when the block is processed while catching up, and that an unconfirmed one is re-requested from exactly one waiting announcer.",
         "level_note": "Trusted: ageing accessor (MemPool.VerifAge) as virtual time, 0.1 s margin around the 3 s window, the harness re-issues the two calls processUnconfirmedTx makes on body arrival and the two calls block processing makes on confirmation.",
         "runs": [
             {"pkg": "internal/handlers", "test": "TestVerif_C14"},
@@ -67,7 +67,7 @@ CHECKS = {
     "C08": {
         "level": "exploration",
         "technique": "runtime monitoring: differential monitor of Node.IsRelevant against an independent script walker and a multiset subscription model over grammar-generated transactions",
-        "level_text": "Each case drives a fresh node through a random subscribe/unsubscribe/contract sequence and judges ten grammar-generated transactions after every step: the harness' own 40-line script walker lists the complete pushes, a multiset model holds the subscriptions, and Tokenized action outputs of every action code (plus truncated and mutated envelopes) are planted. Disagreement in either direction or a panic is a violation. Exploration: the input space is unbounded; the grammar plants matching, hashing-to and one-bit-off pushes in every position and truncates scripts at every kind of push.",
+        "level_text": "Each case drives a fresh node through a random subscribe/unsubscribe/contract sequence and judges ten grammar-generated transactions after every step: the harness' own 40-line script walker lists the complete pushes, a multiset model holds the subscriptions, and Tokenized action outputs of every action code (plus truncated and mutated envelopes) are planted. Disagreement in either direction or a panic is a violation. Exploration: the input space is unbounded; the grammar plants matching, hashing-to and one-bit-off pushes in every position and truncates scripts at every kind of push. Two more monitors: the pkg/client address helpers (every hash of a multi-PKH address is subscribed), and two goroutines changing subscriptions at once (commuting calls, known result, under the race detector).",
         "level_note": "Trusted: bitcoin.Hash160, protocol.Serialize for building action outputs. Not judged (ambiguous in the statement): 20-byte pushes whose hash160 is subscribed, implied data of OP_1..16, mutated envelopes while contract subscription is on.",
         "runs": [
             {"pkg": "internal/spynode", "test": "TestVerif_C08"},
@@ -89,7 +89,7 @@ CHECKS = {
     "C20": {
         "level": "exploration",
         "technique": "runtime monitoring: child-process crash/allocation monitor (address-space limit, per-input heap accounting) over mutated valid encodings and random bytes",
-        "level_text": "Every decoder of the client protocol and every stored-record loader is fed valid encodings with maximal varints / fixed-width maxima spliced in at every byte offset, random bytes behind every type code and noise; decoding runs in a probe child under a 3 GiB address-space limit which reports the outcome and the bytes allocated, and the parent attributes a death to the input in flight. Findings: panic, process-fatal error, allocation above 1 MiB + 64*len(input). Exploration: the byte-string space is unbounded; the mutation set targets every count/length field of every format.",
+        "level_text": "Every decoder of the client protocol and every stored-record loader is fed valid encodings with maximal varints / fixed-width maxima spliced in at every byte offset, random bytes behind every type code and noise; decoding runs in a probe child under a 3 GiB address-space limit which reports the outcome and the bytes allocated, and the parent attributes a death to the input in flight. Findings: panic, process-fatal error, allocation above 1 MiB + 64*len(input). Exploration: the byte-string space is unbounded; the mutation set targets every count/length field of every format. A decode that burns 5 CPU-seconds on one input is reported as not terminating; a decoded value must encode again without a panic.",
         "level_note": "Trusted: runtime.ReadMemStats TotalAlloc as the allocation measure, the crash parser that extracts the dying function from the child's stderr. Decoders of dependencies (wire.MsgTx, bitcoin.Signature, bsor) are reached through spynode's decoders and findings inside them are attributed to the dependency frame.",
         "runs": [
             {"pkg": "pkg/client", "test": "TestVerif_C20"},
@@ -99,7 +99,7 @@ CHECKS = {
     "C16": {
         "level": "exploration",
         "technique": "runtime monitoring: client-boundary history checker of concurrent RemoteClient calls against a scripted loopback server with self-identifying responses, under the Go race detector in the thorough tier",
-        "level_text": "Each round starts the real RemoteClient against a scripted TCP server and issues 2-24 concurrent calls with distinct keys; the server answers by script (permuted by delays, duplicated, rejected, never, after the time-out) and interleaves unsolicited responses. Every response identifies its key, so the oracle checks per call that the returned value / RejectError / Timeout is the one scripted for that call, and that a time-out is not early. Outputs-lookup rounds cover repeated txids and out-of-range indexes. Exploration: schedules and response orders are unbounded.",
+        "level_text": "Each round starts the real RemoteClient against a scripted TCP server and issues 2-24 concurrent calls with distinct keys; the server answers by script (permuted by delays, duplicated, rejected, never, after the time-out) and interleaves unsolicited responses. Every response identifies its key, so the oracle checks per call that the returned value / RejectError / Timeout is the one scripted for that call, and that a time-out is not early. Outputs-lookup rounds cover repeated txids and out-of-range indexes. Exploration: schedules and response orders are unbounded. Pairs of calls of one kind are staggered so that the first times out while the second is pending; a second wave retries keys that were rejected or never answered; height 0 is a key.",
         "level_note": "Trusted: the scripted server (uses the repository's own message codecs and key derivation). An answered call that times out is only judged when the answer was on the wire >300 ms before the deadline and the round reproduces when re-run alone.",
         "runs": [
             {"pkg": "pkg/client", "test": "TestVerif_C16", "shards": {"quick": 8, "thorough": 16}},
@@ -108,7 +108,7 @@ CHECKS = {
     "C17": {
         "level": "exploration",
         "technique": "runtime monitoring: offline checker over the recorded handler callbacks (consecutive message ids, same order on every handler, NextMessageID at barriers) for generated perturbed server streams with connection drops",
-        "level_text": "The real RemoteClient runs against a scripted server that, like the real service, resends from the id declared in Ready and perturbs the stream with duplicates, earlier ids, skipped ids, interleaved Headers/InSync and drops at generated points; handlers record every callback. The checker demands delivered ids = ready, ready+1, ... without gap or repeat on every handler, NextMessageID() = last delivered + 1 at the barrier (marker message through the same FIFO), and that nothing is missed once the server has resent everything in order. A slow-handler family fills the handler channel. Exploration: streams and drop placements are unbounded.",
+        "level_text": "The real RemoteClient runs against a scripted server that, like the real service, resends from the id declared in Ready and perturbs the stream with duplicates, earlier ids, skipped ids, interleaved Headers/InSync and drops at generated points; handlers record every callback. The checker demands delivered ids = ready, ready+1, ... without gap or repeat on every handler, NextMessageID() = last delivered + 1 at the barrier (marker message through the same FIFO), and that nothing is missed once the server has resent everything in order. A slow-handler family fills the handler channel. Exploration: streams and drop placements are unbounded. Families also cover the order across notification kinds (unique Headers/InSync between transactions) and an application that declares ready from an id below the client's own; a hook holds Ready after its write so that the first notifications are handled inside that window.",
         "level_note": "Trusted: the scripted server's resume-from-Ready behaviour as the model of the real service; the barrier relies on the client's handler channel being FIFO (which is itself part of the property and checked through the order of ids).",
         "runs": [
             {"pkg": "pkg/client", "test": "TestVerif_C17", "shards": {"quick": 8, "thorough": 16}},
@@ -117,7 +117,7 @@ CHECKS = {
     "C18": {
         "level": "exploration",
         "technique": "runtime monitoring: server-side arrival-log checker (per-connection message order vs handshake point) and handler-callback checker under forged accepts, generated connection plans and randomly timed application calls",
-        "level_text": "Forgery rounds send one of six forged AcceptRegister messages (or the correct one as control) followed by a data burst and check IsAccepted, handler callbacks and Run's result; gating rounds run 1-4 scripted connections (accept late, close before accept, never accept, drop after the handshake) while application goroutines issue calls at random moments, and the scripted server's per-connection arrival log is checked: only handshake types before the handshake point, register validly signed with a fresh hash per connection, and no call reported as sent while no connection was past its handshake point. Exploration: forgeries, timings and drop points are unbounded; teardown windows are widened by the scripted delays.",
+        "level_text": "Forgery rounds send one of six forged AcceptRegister messages (or the correct one as control) followed by a data burst and check IsAccepted, handler callbacks and Run's result; gating rounds run 1-4 scripted connections (accept late, close before accept, never accept, drop after the handshake) while application goroutines issue calls at random moments, and the scripted server's per-connection arrival log is checked: only handshake types before the handshake point, register validly signed with a fresh hash per connection, and no call reported as sent while no connection was past its handshake point. Exploration: forgeries, timings and drop points are unbounded; teardown windows are widened by the scripted delays. Calls waiting during a forged accept must not be written; a connection following one that was accepted and dropped at once must not count as accepted; the send loop is driven directly on a recording connection cut at generated bytes (reported sent implies written).",
         "level_note": "Trusted: the scripted server (key derivation with the repository's own bitcoin package), server-side timestamps from one monotonic clock. A call that returns success is only judged against a generous window ending when the next connection's register arrives.",
         "runs": [
             {"pkg": "pkg/client", "test": "TestVerif_C18", "shards": {"quick": 8, "thorough": 16}},
@@ -127,7 +127,7 @@ CHECKS = {
     "C01": {
         "level": "exploration",
         "technique": "runtime monitoring: deterministic-schedule simulation of the real node code against a scripted peer with an online in-sync monitor and a convergence oracle under virtual (aged) time; cross-checked by real Node.Run over loopback TCP",
-        "level_text": "Hundreds (thorough: tens of thousands) of generated scenarios run the real header/block handlers, request state, repositories, ProcessBlock and check() in one goroutine against a scripted well-behaved peer: initial chains of 3-52 or 1000-4000 blocks (crossing the 2000-headers message and 1000-header file limits), start block early/middle/not yet mined, permuted and duplicated block replies, varying block-processor fairness, and steps over extend / reorg (depth <= 15, also among pending blocks and during sync) / clean restart / connection drop. At every settle point the node's full height->hash map must equal the peer's best chain after at most three aged time-out rounds (else a stall with the wire trace as witness); every HandleInSync is judged online against the blocks the node has been told about. Exploration: histories and schedules are unbounded; the schedule is chosen by the PRNG so each finding replays.",
+        "level_text": "Hundreds (thorough: tens of thousands) of generated scenarios run the real header/block handlers, request state, repositories, ProcessBlock and check() in one goroutine against a scripted well-behaved peer: initial chains of 3-52 or 1000-4000 blocks (crossing the 2000-headers message and 1000-header file limits), start block early/middle/not yet mined, permuted and duplicated block replies, varying block-processor fairness, and steps over extend / reorg (depth <= 15, also among pending blocks and during sync) / clean restart / connection drop. At every settle point the node's full height->hash map must equal the peer's best chain after at most three aged time-out rounds (else a stall with the wire trace as witness); every HandleInSync is judged online against the blocks the node has been told about. Exploration: histories and schedules are unbounded; the schedule is chosen by the PRNG so each finding replays. A cross-check runs the same kind of history against the real Node.Run over loopback TCP (all goroutines; thorough tier also under the race detector). Generated steps include forks at a block the node has requested or queued (also the one in processing) and a block mined between the end of the headers and the in-sync point.",
         "level_note": "Trusted: the scripted peer as the model of a Bitcoin node (getheaders answered from the first known locator hash with up to 2000 headers, header announcements after sendheaders); virtual time by ageing stored request times through an overlay accessor; the harness re-issues the loop bodies of monitorIncoming/processBlocks/Run's reconnect (the L1 engine over real TCP cross-checks this).",
         "runs": [
             {"pkg": "internal/spynode", "test": "TestVerif_C01"},
@@ -149,7 +149,7 @@ CHECKS = {
     "C03": {
         "level": "exploration",
         "technique": "runtime monitoring: offline exactly-once / completeness checker over recorded HandleTx callbacks against generator ground truth, for generated delivery histories driven directly into the real transaction and block processing code",
-        "level_text": "Thousands of generated delivery histories (inv+tx or bare tx from the trusted peer and two untrusted peers, local submission, several sources for one tx, processing delayed in the channel, confirmation with seen and unseen transactions, re-announcement after confirmation, clean restart; relevant through output push / input push / hashed push or irrelevant; independent or chained) are driven into the real unconfirmed-tx and block processing code; the recorded HandleTx callbacks of both handlers are judged against the generator's ground truth: nothing irrelevant, spent outputs equal the UTXO universe per input, at most 1+orphanings deliveries as new, at least one when seen in sync or in a processed block. Exploration: history space unbounded.",
+        "level_text": "Thousands of generated delivery histories (inv+tx or bare tx from the trusted peer and two untrusted peers, local submission, several sources for one tx, processing delayed in the channel, confirmation with seen and unseen transactions, re-announcement after confirmation, clean restart; relevant through output push / input push / hashed push or irrelevant; independent or chained) are driven into the real unconfirmed-tx and block processing code; the recorded HandleTx callbacks of both handlers are judged against the generator's ground truth: nothing irrelevant, spent outputs equal the UTXO universe per input, at most 1+orphanings deliveries as new, at least one when seen in sync or in a processed block. Exploration: history space unbounded. Histories include reorganisations (blocks orphaned, part of their transactions mined again) and transaction bodies arriving on a second goroutine while a block is processed; an L1 run repeats the rules with the real node over TCP (thorough: under the race detector).",
         "level_note": 'Trusted: generator ground truth (relevance by construction, UTXO universe), fake OutputFetcher; the harness re-issues the tx-processor and block-processor loop bodies sequentially (no goroutine races in this engine).',
         "runs": [
             {"pkg": "internal/spynode", "test": "TestVerif_C03"},
@@ -161,7 +161,7 @@ CHECKS = {
     "C04": {
         "level": "exploration",
         "technique": "runtime monitoring: independent merkle-path verifier run over every confirmation notification of generated blocks, plus a no-effect monitor (height, callbacks) for corrupted block bodies, driven directly into the real block handler and ProcessBlock",
-        "level_text": "Generated blocks of 1..40 and 63..66 transactions (every odd row count at every tree level) with generated sets and positions of relevant transactions, new or previously delivered, as MsgBlock and as the streaming MsgParseBlock, are processed by the real node; every confirmation notification is checked with the harness' own verifier against the merkle root of the header the node holds (true index, depth 0, the right notification kind, exactly one). For five kinds of body corruption under an unchanged header the monitor demands no height change and no callback. Exploration: block shapes are unbounded; sizes cover all duplication patterns up to 66 leaves.",
+        "level_text": "Generated blocks of 1..40 and 63..66 transactions (every odd row count at every tree level) with generated sets and positions of relevant transactions, new or previously delivered, as MsgBlock and as the streaming MsgParseBlock, are processed by the real node; every confirmation notification is checked with the harness' own verifier against the merkle root of the header the node holds (true index, depth 0, the right notification kind, exactly one). For five kinds of body corruption under an unchanged header the monitor demands no height change and no callback. Exploration: block shapes are unbounded; sizes cover all duplication patterns up to 66 leaves. One block in four has the body of one of its transactions arrive while the block is processed, one in five is orphaned at once with part of its transactions mined again and the rest announced again; proof shape (duplicated-node markers) is judged and, online, every proof must be for a block the node holds at that moment.",
         "level_note": "Trusted: the harness' SHA-256 based merkle code (checked against the generator's block builder, which uses the same root function but an independent path walk), the DD step that re-issues the block-processor loop body.",
         "runs": [
             {"pkg": "internal/spynode", "test": "TestVerif_C04"},
@@ -170,7 +170,7 @@ CHECKS = {
     "C06": {
         "level": "exploration",
         "technique": "runtime monitoring: offline checker over recorded handler callbacks against generator ground truth (which unconfirmed transaction loses an outpoint to a confirmed one) for generated double-spend histories driven into the real tx and block processing code",
-        "level_text": "Generated histories over 4 outpoints with 3-8 transactions, arriving from generated sources and interleaved with blocks that confirm non-conflicting subsets (winner seen or unseen, relevant or not, several conflicts per block), run through the real tx and block processing; for every delivered unconfirmed loser the callbacks must contain a cancelled+unsafe update after the confirming block's HandleHeaders, none for transactions without a confirmed conflict, the loser must be gone from the mempool, and the block's own transactions must pass the C04 proof check. Exploration.",
+        "level_text": "Generated histories over 4 outpoints with 3-8 transactions, arriving from generated sources and interleaved with blocks that confirm non-conflicting subsets (winner seen or unseen, relevant or not, several conflicts per block), run through the real tx and block processing; for every delivered unconfirmed loser the callbacks must contain a cancelled+unsafe update after the confirming block's HandleHeaders, none for transactions without a confirmed conflict, the loser must be gone from the mempool, and the block's own transactions must pass the C04 proof check. Exploration. The loser must also be gone from the outpoint index of every outpoint it spent; arrivals while an unrelated block is processed are part of the histories; a block processor that never returns is reported through the hang guard.",
         "level_note": 'Trusted: generator ground truth of who loses which outpoint; sequential DD engine (block processing and tx processing do not race here).',
         "runs": [
             {"pkg": "internal/spynode", "test": "TestVerif_C06"},
@@ -179,7 +179,7 @@ CHECKS = {
     "C11": {
         "level": "exploration",
         "technique": "runtime monitoring: state-equality monitor across restart (unconfirmed set before vs after through an accessor) plus offline callback checker for post-restart behaviour, over generated histories with restarts at generated quiescent points",
-        "level_text": "Generated delivery / conflict / confirmation histories with clean restarts inserted at quiescent points run through the real node; at each restart the unconfirmed set (txids, unsafe/safe/trusted flags, first-seen time to the millisecond) read before the stop must equal the set the new node loads; after the restart re-announcements must not be delivered again, confirmations must be updates with valid proofs, and GetTx must return exactly the delivered transaction. The unconfirmed file round trip is exercised for all 8 flag combinations and the empty set. Exploration: histories and restart positions are unbounded.",
+        "level_text": "Generated delivery / conflict / confirmation histories with clean restarts inserted at quiescent points run through the real node; at each restart the unconfirmed set (txids, unsafe/safe/trusted flags, first-seen time to the millisecond) read before the stop must equal the set the new node loads; after the restart re-announcements must not be delivered again, confirmations must be updates with valid proofs, and GetTx must return exactly the delivered transaction. The unconfirmed file round trip is exercised for all 8 flag combinations and the empty set. Exploration: histories and restart positions are unbounded. The delay checker is re-issued as a step at generated points, after restarts and after a tracked transaction was announced again to the restarted node: no transaction is reported safe twice.",
         "level_note": "Trusted: overlay accessor reading the unconfirmed map under its lock; clean restart re-issues the three saves Run performs at shutdown. 'Reported safe once' across restart is judged by the C07 monitor, which runs the real delay checker.",
         "runs": [
             {"pkg": "internal/spynode", "test": "TestVerif_C11"},
@@ -188,7 +188,7 @@ CHECKS = {
     "C07": {
         "level": "exploration",
         "technique": "runtime monitoring: per-txid trace checker over recorded notifications while the real delay-checker goroutine runs concurrently with directly driven tx/block processing; a failpoint-style hook widens the checker's fetch->save window and counts iterations; thorough tier under the Go race detector",
-        "level_text": "Each scenario runs the real checkTxDelays goroutine (SafeTxDelay 300 ms) concurrently with generated arrivals from trusted/untrusted/local sources, conflicting arrivals placed before, inside (hook-held fetch->save window) and after the expiry, confirmations racing the checker and clean restarts; the recorded per-txid notification trajectory of both handlers is checked against the trace specification (never safe&unsafe, cancelled=>unsafe, no safe after unsafe/cancelled, unconfirmed safe only after the trusted peer vouched and not before first_send+delay, at most once also across restarts, and within 20 checker iterations when warranted). Exploration: relative timings are unbounded; the hook makes the critical window reachable.",
+        "level_text": "Each scenario runs the real checkTxDelays goroutine (SafeTxDelay 300 ms) concurrently with generated arrivals from trusted/untrusted/local sources, conflicting arrivals placed before, inside (hook-held fetch->save window) and after the expiry, confirmations racing the checker and clean restarts; the recorded per-txid notification trajectory of both handlers is checked against the trace specification (never safe&unsafe, cancelled=>unsafe, no safe after unsafe/cancelled, unconfirmed safe only after the trusted peer vouched and not before first_send+delay, at most once also across restarts, and within 20 checker iterations when warranted). Exploration: relative timings are unbounded; the hook makes the critical window reachable. Also: a double spend confirmed while the node catches up after a dropped connection (also after a restart), and a conflicting transaction submitted locally.",
         "level_note": "Trusted: harness clock over-approximates the age (only 'too early' is judged), iteration counting through hook node.safe.iteration (absence => inconclusive, never a timer verdict), tx and block processing share the harness goroutine (they race with the checker, not with each other).",
         "runs": [
             {"pkg": "internal/spynode", "test": "TestVerif_C07"},
@@ -197,7 +197,7 @@ CHECKS = {
     "C12": {
         "level": "exploration",
         "technique": "runtime monitoring: non-interference expressed as trusted-side invariants (convergence oracle, proof provenance, safe/vouching, unverified-peer isolation) monitored while simulated hostile untrusted connections act between the scheduling steps of the deterministic node simulation",
-        "level_text": "The well-behaved-trusted-peer scenarios of C01 run with 1-3 simulated untrusted connections that act between scheduling steps with generated hostile traffic: valid and invalid chain proofs, inv/tx before and after verification, block messages for outstanding trusted requests (genuine, and same header with a different body), foreign blocks, addr floods. Monitors: the C01 convergence and in-sync oracles must still hold, every proof is for a block of the trusted tree, a transaction from untrusted peers is never safe, an unverified peer is never asked for a transaction and nothing it sent reaches a handler. Exploration: adversary message sequences and interleavings are unbounded.",
+        "level_text": "The well-behaved-trusted-peer scenarios of C01 run with 1-3 simulated untrusted connections that act between scheduling steps with generated hostile traffic: valid and invalid chain proofs, inv/tx before and after verification, block messages for outstanding trusted requests (genuine, and same header with a different body), foreign blocks, addr floods. Monitors: the C01 convergence and in-sync oracles must still hold, every proof is for a block of the trusted tree, a transaction from untrusted peers is never safe, an unverified peer is never asked for a transaction and nothing it sent reaches a handler. Exploration: adversary message sequences and interleavings are unbounded. An L1 run lets the real node open UntrustedNode connections to hostile listeners (verified peers that misbehave, five kinds of liars) while the trusted chain moves (thorough: also under the race detector); a DD run judges the notifications each untrusted delivery produces in transaction histories with reorganisations.",
         "level_note": "Trusted: untrusted connections are driven at the message-handler level with the same shared objects the real UntrustedNode uses (state, mempool, tx channel, block repository); their goroutines and sockets are exercised by the L1/C19 engine only.",
         "runs": [
             {"pkg": "internal/spynode", "test": "TestVerif_C12"},
@@ -211,7 +211,7 @@ CHECKS = {
     "C10": {
         "level": "fault_enumeration",
         "technique": "runtime monitoring with fault enumeration: every crash image (state after each prefix of the recorded storage mutation log) and every single-operation storage fault of generated sync/reorg/shutdown scenarios, judged by a load + single-branch monitor and the C01 convergence oracle",
-        "level_text": "Each generated scenario (initial sync incl. header-file roll-over, in-sync extensions with a save per block, reorgs of depth 1-6 also across a file boundary, clean restarts, shutdown) runs on a recording storage wrapper. For every prefix of its mutation log the storage image is rebuilt and a fresh node must load a hash-linked chain lying on one branch of the peer's tree and converge to the peer's best chain; for every j the same deterministic scenario is replayed with the j-th storage operation failing once, after which the in-memory chain must be consistent or a restart on the surviving storage must load and converge. All i and all j are enumerated per scenario (exhaustive per scenario, up to 600 each); the scenario set itself is sampled.",
+        "level_text": "Each generated scenario (initial sync incl. header-file roll-over, in-sync extensions with a save per block, reorgs of depth 1-6 also across a file boundary, clean restarts, shutdown) runs on a recording storage wrapper. For every prefix of its mutation log the storage image is rebuilt and a fresh node must load a hash-linked chain lying on one branch of the peer's tree and converge to the peer's best chain; for every j the same deterministic scenario is replayed with the j-th storage operation failing once, after which the in-memory chain must be consistent or a restart on the surviving storage must load and converge. All i and all j are enumerated per scenario (exhaustive per scenario, up to 600 each); the scenario set itself is sampled. After a fault the in-memory chain is probed after every later scheduling step. Two more monitors: the hostile C02 message alphabet (incl. a 1005-header roll-over family) replayed with one storage operation failing, and a slow Save overlapping a cross-file Revert on one repository (two goroutines, race detector) whose storage image must load.",
         "level_note": "Trusted: the storage wrapper's images equal the back-end state after mutation i (atomic whole-key writes; torn writes not modelled), the DS engine's determinism for a fixed seed, the scripted peer of C01 for the convergence part.",
         "runs": [
             {"pkg": "internal/spynode", "test": "TestVerif_C10", "shards": {"quick": 6, "thorough": 16}},
@@ -223,7 +223,7 @@ CHECKS = {
     "C19": {
         "level": "exploration",
         "technique": "runtime monitoring: the real Node.Run over loopback TCP against a scripted peer with Stop / connection faults injected at generated points; oracle = termination (stable-deadlock signature from goroutine dumps), late-callback flag, persisted-state comparison, re-announcement check; failpoint-style hooks widen the shutdown phases",
-        "level_text": "Each case runs the real node (all its goroutines and sockets) against a scripted TCP peer and requests Stop at one of ten generated points (refused connection, silent peer, header sync, ten outstanding block requests, inside ProcessBlock, consumer exited with a full tx channel, in-sync traffic, between the shutdown phases, reconnect loop, after a resumed connection). The monitor checks that Stop and Run return - a hang is only a violation when two goroutine dumps 3 s apart show the same node goroutines blocked at the same places - that no handler is called after Stop returned, that a fresh node on the storage loads the chain and unconfirmed set the stopped node had, that it loads as many peer addresses as the stopped node knew, and that a re-established connection resumes from the stored tip without announcing a block twice. Exploration: stop points and timings are unbounded.",
+        "level_text": "Each case runs the real node (all its goroutines and sockets) against a scripted TCP peer and requests Stop at one of ten generated points (refused connection, silent peer, header sync, ten outstanding block requests, inside ProcessBlock, consumer exited with a full tx channel, in-sync traffic, between the shutdown phases, reconnect loop, after a resumed connection). The monitor checks that Stop and Run return - a hang is only a violation when two goroutine dumps 3 s apart show the same node goroutines blocked at the same places - that no handler is called after Stop returned, that a fresh node on the storage loads the chain and unconfirmed set the stopped node had, that it loads as many peer addresses as the stopped node knew, and that a re-established connection resumes from the stored tip without announcing a block twice. Exploration: stop points and timings are unbounded. Twelve stop points, including a transaction backlog behind a slow handler while the application keeps submitting, and a block that failed in the middle of its processing; thorough tier also under the race detector.",
         "level_note": "Trusted: the scripted TCP peer (same model as the DS engine), goroutine-dump parsing for the deadlock signature, wall-clock watchdog only leads to 'inconclusive'.",
         "runs": [
             {"pkg": "internal/spynode", "test": "TestVerif_C19", "shards": {"quick": 10, "thorough": 16}},
